@@ -105,6 +105,13 @@ func VerifC14Transitions() {
 	}
 	_, _, berr := e.read(b)
 	hasB := berr == nil
+	if verifBool("remapped-after-restart") {
+		// the server restarts with GLACIER no longer mapped to the cold store
+		// (STANDARD_IA takes its place): existing cold parts must still be found
+		// and relocated by transitions
+		verifCover("remapped")
+		e = verifReopen(e, map[string]string{"STANDARD_IA": "cold"})
+	}
 
 	steps := verifParam("steps", 1)
 	for s := 0; s < steps; s++ {
